@@ -170,8 +170,8 @@ func (m *MessageStore) processMessageLoop(ctx context.Context, tracer *messageMe
 			// unknown device, lets keep moving
 			continue
 		} else if !hasKnownChainKey {
-			// we dont know the chain key yet, add message to the device cache
-			device.queue.Add(message)
+			// we dont know the chain key yet, the message has been added to the
+			// device cache by getOrCreateDeviceCache
 			_ = m.emitters.groupCacheMessage.Emit(*message)
 			continue
 		}
@@ -220,6 +220,13 @@ func (m *MessageStore) getOrCreateDeviceCache(ctx context.Context, message *mess
 			hasKnownChainKey: hasSecret,
 		}
 		m.deviceCaches[devicePublicKeyString] = device
+	}
+
+	if !device.hasKnownChainKey {
+		// park the message while holding muDeviceCaches: ProcessMessageQueueForDevicePK
+		// refreshes hasKnownChainKey and pops the device queue under the same lock, so a
+		// chain key registered right now cannot leave this message behind
+		device.queue.Add(message)
 	}
 
 	return device, device.hasKnownChainKey
